@@ -956,3 +956,11 @@ def run(ctx):
     rule_R4(ctx, M)
     rule_R5(ctx, M)
     rule_R6(ctx, M)
+    # the certificate is about the system of the GIVEN model: the operator
+    # coefficients are those of the arguments of this call (rules of C02)
+    from . import c02
+    from ..core.report import Renamed
+    P = Renamed(ctx, lambda r: 'C01.OP.' + r.split('.', 1)[1])
+    c02.coefficients(P)
+    c02.model_aliasing(P)
+    c02.fresh_vmodel(P, rule='C02.O5.fresh')
